@@ -119,6 +119,70 @@ def scheme_of(line):
     return [unesc(p) for p in parts[1:]]
 
 
+
+# ------------------------------------------------------------------------------------------- semantic oracle (C02)
+
+def sstr_(s):
+    return "S" + ".".join("%x" % ord(c) for c in s)
+
+
+def file_records(rng, expr_text, clock, k):
+    """file records directed at the constants of the expression: value-1, value, value+1 per unit,
+    permission/type bits, matching and near-miss names; plus random ones"""
+    nums = [int(x) for x in re.findall(r"\d+", expr_text) if len(x) < 18][:30] or [0]
+    words = [w.strip("'\"") for w in re.findall(r"-i?(?:name|path|pool|xattr)\s+(\S+)", expr_text)] or ["a"]
+    octs = [int(x, 8) for x in re.findall(r"-perm\s+[-/]?([0-7]{3,4})\b", expr_text)]
+    recs = []
+    for _ in range(k):
+        n = rng.choice(nums + [0, 1, 5])
+        unit = rng.choice([1, 1, 2, 512, 1024, 2**20, 2**30, 60, 3600, 86400])
+        d = rng.choice([-1, 0, 0, 1, unit - 1, -unit + 1, unit])
+        size = max(0, n * unit + d) if rng.random() < 0.8 else rng.randint(0, 2**33)
+        def stamp():
+            if rng.random() < 0.8:
+                return max(0, clock - n * unit - rng.choice([-1, 0, 0, 1, unit - 1, unit]))
+            return rng.randint(0, clock + 100000)
+        cnt = lambda: max(0, n + rng.choice([-1, 0, 0, 1])) if rng.random() < 0.8 else rng.randint(0, 2**32 - 1)
+        ftype = rng.choice([0o100000, 0o040000, 0o120000, 0o010000, 0o020000, 0o060000, 0o140000])
+        perm = rng.choice(octs + [0o644, 0o755, 0, 0o7777, rng.randint(0, 0o7777)])
+        if rng.random() < 0.4:
+            perm ^= 1 << rng.randrange(12)
+        w = rng.choice(words)
+        name = rng.choice([w, w.upper(), w.lower(), w + "x", w[:-1], w.replace("*", "zz").replace("?", "q"), "other"])
+        rel = rng.choice(["d/" + name, name, w, w.replace("*", "a/b")])
+        pools = rng.sample(words + ["fast", "slow"], rng.randint(0, 2))
+        xattrs = [(rng.choice(words + ["user.k"]), rng.choice(words + ["v", ""])) for _ in range(rng.randint(0, 2))]
+        nums14 = [size, ftype | perm, cnt(), cnt(), cnt(), cnt(), stamp(), stamp(), stamp(),
+                  rng.choice([0, 1, 7, 8, 2 * n, 2 * n + 1]), cnt(), cnt(), rng.choice([0, 65536, 1048576]), cnt()]
+        strs = [name, rel, "/mnt/" + rel, "[0x1:0x%x:0x0]" % rng.randint(0, 99), rng.choice(["bob", "root"]), rng.choice(["users", "wheel"]), "/mnt"]
+        fields = [str(x) for x in nums14] + [sstr_(x) for x in strs]
+        fields += [str(len(pools))] + [sstr_(x) for x in pools]
+        fields += [str(len(xattrs))] + [sstr_(x) for kv in xattrs for x in kv]
+        fields += [rng.choice("01") for _ in range(4)]
+        recs.append(" ".join(fields))
+    return recs
+
+
+def semantic_cases(rng, results, per_case, limit):
+    """EV lines for compiled observations of the implementation"""
+    lines, meta = [], []
+    pool = [(c, i) for c, i, m in results if c.startswith("PC ") and " COK " in i]
+    rng.shuffle(pool)
+    for c, i in pool[:limit]:
+        f = c.split(" ")
+        expr_hex = f[1]
+        expr_text = "" if expr_hex == "-" else "".join(chr(int(x, 16)) for x in expr_hex.split("."))
+        cp = compile_part(i)
+        mclock = re.search(r"clock (\d+) COK (.*?) \| ", cp)
+        if not mclock:
+            continue
+        clock, iomap = int(mclock.group(1)), mclock.group(2)
+        text = unesc(cp.split(" | ", 1)[1])
+        for rec in file_records(rng, expr_text, clock, per_case):
+            lines.append("EV %s %d %s %s FILE %s" % (expr_hex, clock, hx(text), iomap, rec))
+            meta.append((c, rec))
+    return lines, meta
+
 # ------------------------------------------------------------------------------------------- C01
 
 C01_WORDS = ["(", ")", "!", ",", "-a", "-and", "-o", "-or", "-true", "-false", "-print"]
@@ -185,7 +249,11 @@ class C02(Prop):
     theorems = []
     rule = ("random expressions over every supported test/action (boundary-rich arguments), compiled and rendered; "
             "compared: the complete emitted program (whose meaning the theorems characterise) and the destination "
-            "table. Non-trivial: the expression compiles; distinct = distinct inputs")
+            "table. In addition (semantic oracle, coverage key semantic_oracle_evaluations) the IMPLEMENTATION's "
+            "program text is read by the specified reader and evaluated by the specified Scheme semantics on file "
+            "records directed at the constants of the expression (value-1/value/value+1 per unit, permission and "
+            "type bits, matching and near-miss names), and compared with find's reference semantics. "
+            "Non-trivial: the expression compiles; distinct = distinct inputs")
 
     def cases(self, tier, rng):
         n = 20000 if tier == "quick" else 400000
@@ -232,6 +300,46 @@ class C02(Prop):
 
     def nontrivial(self, case, line):
         return " COK " in line
+
+    def oracle(self, case, impl, model):
+        """look for a file record on which the implementation's program and find's rules differ"""
+        import os
+        from . import core
+        if " COK " not in impl:
+            return "the implementation does not produce a program where the property demands one (or the reverse)"
+        lines, meta = semantic_cases(random.Random(7), [(case, impl, model)], 60, 1)
+        outs = core.run_lines(os.path.join(core.OCAML, "driver"), lines)
+        for (c, rec), o in zip(meta, outs):
+            m = re.match(r"EVAL spec=(.*) \|\| prog=(.*)$", o or "")
+            if m and m.group(1) not in ("KNOWN-D17", "UNDEFINED", "NO-PARSE") and m.group(1) != m.group(2):
+                return "on the file record [%s] the emitted policy gives {%s} where find's rules give {%s}" % (rec, m.group(2)[:300], m.group(1)[:300])
+        if compile_part(impl).split(" | ")[0] != compile_part(model).split(" | ")[0]:
+            return "the destination table differs from the one the property demands"
+        return None
+
+    def post(self, results):
+        """semantic oracle: the IMPLEMENTATION's program text, read by the specified reader and
+        evaluated by the specified semantics on directed file records, against find's rules"""
+        import os
+        from . import core
+        rng = random.Random(12345)
+        tier_limit = 1500 if len(results) < 100000 else 20000
+        lines, meta = semantic_cases(rng, results, 4, tier_limit)
+        outs = core.run_lines(os.path.join(core.OCAML, "driver"), lines)
+        bad = []
+        self.semantic_evaluations = 0
+        for (c, rec), o in zip(meta, outs):
+            m = re.match(r"EVAL spec=(.*) \|\| prog=(.*)$", o or "")
+            if not m:
+                bad.append((c, "semantic oracle produced no answer: %r" % (o or "")[:200]))
+                continue
+            spec, prog = m.group(1), m.group(2)
+            if spec in ("KNOWN-D17", "UNDEFINED", "NO-PARSE"):
+                continue
+            self.semantic_evaluations += 1
+            if spec != prog:
+                bad.append((c, "on the file record [%s] the emitted policy gives {%s} where find's rules give {%s}" % (rec, prog[:300], spec[:300])))
+        return bad
 
 
 # ------------------------------------------------------------------------------------------- C03
@@ -311,6 +419,7 @@ class C03(Prop):
         for v in range(0o370, 0o1000, 5):
             out.append((PC("-printf 'a\\%03ob\\n'" % v), "octal-escape"))
             out.append((PC("-fprintf f '\\%03o'" % v), "octal-escape"))
+        out += [(PC(s), "scale") for s in gen.scale_cases(rng)]
         out += [(PC(s), "seed-corpus") for s in ["", " ", "nope", "-perm 17777", "-printf '\\1234567'", "-maxdepth 3",
                                                  "-size 18014398509481984k", "-printf '%'", "-printf '\\", "'", "\"", "-name 'x"]]
         return out
@@ -520,6 +629,7 @@ class C05(Prop):
             out.append((P("-xattr-match user.tag foo%sbar" % u), "unicode-space"))
             out.append((P("-printf %%p%s%%s" % u), "unicode-space"))
             out.append((P("-true%s-false" % u), "unicode-space"))
+        out += [(P(s_), "scale") for s_ in gen.scale_cases(rng)]
         for w in ["foo", "-foo", "nope", "--", "-", "true", "-TRUE", "-Print", "5", "'-true'"]:
             out.append((P(w), "non-keyword"))
             out.append((P("-true " + w), "non-keyword"))
@@ -851,6 +961,7 @@ class C10(Prop):
         for nm in [125, 126, 127, 130]:
             names = " -o ".join("-name n%d" % i for i in range(nm))
             out.append((PC("-fprint early -fprint0 early ( %s ) -fprint late -fprint0 late -print0" % names), "late-printer"))
+        out += [(PC(s_), "scale") for s_ in gen.scale_cases(rng)]
         return out
 
     def nontrivial(self, case, line):
@@ -1227,7 +1338,7 @@ class C17(Prop):
 # ------------------------------------------------------------------------------------------- C18
 
 INVALID_ARGS = {
-    "num": ["x", "-x", "+x", "abc", "k5", "'5'", "=5", "99999999999999999999999"],
+    "num": ["x", "-x", "+x", "abc", "k5", "'5'", "=5", "99999999999999999999999", "\\d", "x\\y", "x'y", "n\"1", "\x07", "z\x1b[0m", "é", "x\u00a0y"],
     "str": [")"],
     "perm": ["8", "q+r", "+r", "=", "rwx", "7", "u", "88"],
     "type": ["x", "q,f", "ff", "F", "1", ",f"],
@@ -1260,7 +1371,8 @@ class C18(Prop):
                     if a is None:
                         post = []
                     out.append((P(" ".join(pre + [mid] + post)), "invalid-arg" if a is not None else "missing-arg"))
-            for w in ["foo", "-foo", "nope", "-anewerx", "-amin5", "-printx", "x-true", "-true-false", "--true", "5", "+", "=", "'q'", "-Name"]:
+            for w in ["foo", "-foo", "nope", "-anewerx", "-amin5", "-printx", "x-true", "-true-false", "--true", "5", "+", "=", "'q'", "-Name",
+                      "-new\\er", "-it's", "-bo\x0cgus", "-quitx", "-print00", "-depths", "-lsx", "-emptyy", "\"ab\" x", "é" * 30]:
                 pre = [rng.choice(valid) for _ in range(rng.randint(0, 3))]
                 post = [rng.choice(valid[:6]) for _ in range(rng.randint(0, 2))]
                 out.append((P(" ".join(pre + [w] + post)), "unknown-word"))
